@@ -188,14 +188,31 @@ def monOp (m : Mon) (op : String) (args : List String) (impl : List String) : Mo
           | _ => none
         let verdict := outs.foldl (fun v b =>
           if v ≠ "ok" then v else
-          match m.recv.find? fun (j, rq) => j = k && idOf rq == idOf b with
-          | none => "bad C02:reply-with-identifier-the-client-never-used"
-          | some (_, rq) =>
-            if !replyOk H cc.secret (authOf rq) b then "bad C06:reply-malformed-or-not-authenticated-for-this-client"
-            else if (codeOf b = 42 || codeOf b = 45) && !((attrsOf b).any fun (t, v) => t = 101 && v == beEnc 4 406) then "bad C05:nak-without-error-cause-406"
+          let cands := m.recv.filter fun (j, rq) => j = k && idOf rq == idOf b
+          if cands.isEmpty then "bad C02:reply-with-identifier-the-client-never-used"
+          -- valid for (at least) one of the requests this client sent with that identifier
+          else if !(cands.any fun (_, rq) => replyOk H cc.secret (authOf rq) b) then "bad C06:reply-malformed-or-not-authenticated-for-this-client"
+          else if (codeOf b = 42 || codeOf b = 45) && !((attrsOf b).any fun (t, v) => t = 101 && v == beEnc 4 406) then "bad C05:nak-without-error-cause-406"
             else "ok") "ok"
         (resync m out, verdict)
     | none => (m, "bad-op")
+  | "rewrite", name :: attrs =>
+    -- C01/C06 on the rewriting stage alone: an accepted result never holds a value above 253 octets,
+    -- and attributes no rule names are passed through unchanged and in order
+    match attrs.mapM parseAttr, parseMsgToks ((headToks out).drop 1) with
+    | some inp, some res =>
+      if (headToks out).head? != some "rv=1" then (m, "ok")
+      else
+        let rw := findRw m.cfg name
+        let touched (t : UInt8) : Bool := match rw with
+          | none => false
+          | some r => r.whitelist || (r.rmAttrs.getD []).contains t || (t = 0 && r.rmAttrs.isSome) ||
+                      (t = 26 && (r.rmVAttrs.isSome || r.modVAttrs.isSome)) || ((r.modAttrs.getD []).any (·.t = t)) ||
+                      ((r.addAttrs.getD []).any (·.t = t)) || ((r.supAttrs.getD []).any (·.t = t))
+        if res.attrs.any (fun a => a.v.length > 253) then (m, "bad C06:attribute-value-longer-than-253-after-rewrite")
+        else if (res.attrs.filter fun a => !touched a.t) != (inp.filter fun a => !touched a.t) then (m, "bad C01:untouched-attributes-not-preserved-by-rewrite")
+        else (m, "ok")
+    | _, _ => (m, if (headToks out).head? == some "rv=0" then "ok" else "bad-op")
   | "tick", _ => (m, "ok")
   | "radput", _ => (m, "ok")
   | "reset", _ => (resync m out, "ok")
